@@ -6,6 +6,7 @@ import (
 	"bytes"
 	"fmt"
 	"io"
+	"strings"
 	"testing"
 
 	"github.com/go-gts/gts"
@@ -226,10 +227,22 @@ func genLoc(t *rapid.T, c locCfg) Loc {
 var featKeys = []string{"gene", "CDS", "misc_feature", "variation", "exon", "mRNA", "repeat_region"}
 
 // genFeats draws n labelled features (labels prefix0..). Qualifiers are few and small; identity is the label.
+// insdcFeatureKeys: the feature keys of the INSDC feature table definition (harness's own list, "source" left out).
+var insdcFeatureKeys = strings.Fields(`assembly_gap C_region CDS centromere D-loop D_segment exon gap gene iDNA intron J_segment mat_peptide
+	misc_binding misc_difference misc_feature misc_recomb misc_RNA misc_structure mobile_element modified_base mRNA ncRNA N_region
+	old_sequence operon oriT polyA_site precursor_RNA prim_transcript primer_bind propeptide protein_bind regulatory repeat_region
+	rep_origin rRNA S_region sig_peptide stem_loop STS telomere tmRNA transit_peptide tRNA unsure V_region V_segment variation
+	3'UTR 5'UTR`)
+
 func genFeats(t *rapid.T, c locCfg, n int, prefix string, allowSource bool) []Feat {
 	out := make([]Feat, n)
 	for i := range out {
 		key := rapid.SampledFrom(featKeys).Draw(t, "key")
+		if rapid.IntRange(0, 5).Draw(t, "anykey") == 0 {
+			// any key of the INSDC feature table definition: no operation may treat one of them specially (only
+			// "source" has a role of its own)
+			key = rapid.SampledFrom(insdcFeatureKeys).Draw(t, "insdckey")
+		}
 		if allowSource && rapid.IntRange(0, 5).Draw(t, "src") == 0 {
 			key = "source"
 		}
